@@ -104,7 +104,8 @@ pub fn check(c: &Case, obs: &mut Obs) -> Verdict {
 }
 
 pub fn check_ledger(ledger: &[Tx], obs: &mut Obs) -> Verdict {
-    if lgen::has_excluded_placement(ledger) {
+    if lgen::has_excluded_placement(ledger) || ledger.iter().any(|t| matches!(t.op, Op::CapRet { .. })) {
+        // a capital return can be refused for its own reason: "no other obstacle" does not hold
         obs.excluded += 1;
         return Verdict::Pass;
     }
